@@ -265,6 +265,15 @@ SassLineOfI(i) == IF split = 0 THEN SassLineOf(prog, i)
 Obs(p, o) == IF o.k = "decl" THEN <<"decl", o.sel, o.prop, o.val>>
              ELSE <<o.k, o.msg, ScssLineOf(o.at), SassLineOfI(o.at), FileOf(o.at)>>
 
+\* does the program use a construct that only Sass has?  (nesting alone is left open: plain CSS may nest)
+RECURSIVE SassExpr(_)
+SassExpr(e) == e.t \notin {"int", "str", "qstr"}
+SassOnlyIns(ins) == CASE ins.op \in {"rule", "end"} -> FALSE
+                      [] ins.op = "prop" -> SassExpr(ins.e)
+                      [] OTHER -> TRUE
+SassOnly == \E i \in 1..Len(prog) : SassOnlyIns(prog[i])
+Nested == \E i \in 1..Len(prog) : prog[i].op = "rule" /\ DepthAt(prog, i) > 0
+
 EmitCase ==
   done =>
     LET s == Run(EvalProg, Fuel)
@@ -278,7 +287,7 @@ EmitCase ==
                                             ELSE IF implast THEN SassLines(Main) \o <<imp>>
                                             ELSE <<imp>> \o SassLines(Main),
                                    lib |-> IF split = 0 THEN <<>> ELSE ScssLines(Lib),
-                                   k |-> k,
+                                   k |-> k, sassonly |-> SassOnly, nested |-> Nested,
                                    log |-> [i \in 1..Len(s.out) |-> Obs(prog, s.out[i])],      \* also what precedes an error
                                    einfo |-> IF s.einfo.at = 0 THEN <<>>
                                              ELSE <<s.einfo.msg, ScssLineOf(s.einfo.at), FileOf(s.einfo.at)>>,
